@@ -111,6 +111,10 @@ def cases(tier, seed):
                 out.append({"kind": "sequence", "rep": "chunked+pointers", "lengths": lengths, "N": N, "G": G, "first": a, "middle": b, "second": c,
                             "name": f"[{a}; {b}; {c}] on one object == {c} on a fresh one/chunked+pointers {ln},G={G}"})
     for rep in REPS:
+        for second in ("apply", "apply(mask)", "ikey_count", "sum"):
+            out.append({"kind": "apply_seq", "rep": rep, "N": 4, "G": 2, "second": second,
+                        "name": f"[apply(mask); {second}] on one object == {second} on a fresh one/{rep}/N=4,G=2/all code sequences x masks"})
+    for rep in REPS:
         out.append({"kind": "copy", "rep": rep, "lengths": lays[0], "N": N, "G": G, "name": f"GroupBy(existing) behaves like the original/{rep}"})
     for lengths in lays[:2]:
         ln = "+".join(map(str, lengths))
@@ -177,6 +181,8 @@ def run_case(E, case):
     t0 = time.time()
     if case["kind"] == "ema":
         return run_ema(E, case)
+    if case["kind"] == "apply_seq":
+        return run_apply_seq(E, case)
     inp = Inputs()
     d = build(case, inp)
     merged = MergedRT()
@@ -341,6 +347,107 @@ def run_ema(E, case):
     return EM._finish(res, E)
 
 
+# ------------------------------------------------------------------ apply (user function) inside operation sequences: codes enumerated
+def _concrete_state(E, case, codes):
+    N, G = case["N"], case["G"]
+    rep = case["rep"]
+    if rep == "contiguous":
+        return make_gb(E, G, codes=A(list(codes), "int64"))
+    half = N // 2
+    if rep == "chunked-unified":
+        return make_gb(E, G, chunks=[A(list(codes[:half]), "int64"), A(list(codes[half:]), "int64")], pointers=None)
+    # per-chunk dictionaries: chunk 0 numbers the labels in reverse, chunk 1 in order
+    p0 = list(range(G - 1, -1, -1))
+    p1 = list(range(G))
+    inv0 = {g: j for j, g in enumerate(p0)}
+    l0 = [(-1 if c < 0 else inv0[c]) for c in codes[:half]]
+    l1 = list(codes[half:])
+    return make_gb(E, G, chunks=[A(l0, "int64"), A(l1, "int64")], pointers=[A(p0, "int64"), A(p1, "int64")])
+
+
+def run_apply_seq(E, case):
+    t0 = time.time()
+    from . import ema as EM
+    N, G = case["N"], case["G"]
+    res = EM._blank()
+    F = z3.Function("user_func", z3.IntSort(), *([z3.RealSort()] * N), z3.RealSort())
+
+    def user(sub):
+        cells = sub.cells if isinstance(sub, A) else list(sub)
+        args = [c.v if isinstance(c, SF) else z3.RealVal(c) for c in cells] + [z3.RealVal(0)] * (N - len(cells))
+        return SF(False, F(z3.IntVal(len(cells)), *args))
+
+    def second_op(gb, v, m2):
+        k = case["second"]
+        if k == "apply":
+            return [_arr(gb.apply(v, user, None))]
+        if k == "apply(mask)":
+            return [_arr(gb.apply(v, user, m2))]
+        if k == "ikey_count":
+            return [gb.ikey_count]
+        return op_sum(gb, v, None)
+    masks1 = [m for m in itertools.product([True, False], repeat=N) if not all(m)][::3]
+    m2bits = [True, False] * (N // 2) + [True] * (N % 2)
+    for codes in itertools.product(range(-1, G), repeat=N):
+        nn = sum(1 for c in codes if c >= 0)
+        if nn == 0:
+            continue
+        for m1 in masks1:
+            inp = Inputs()
+            v1 = inp.floats("v", N, nullable=False)
+            v2 = inp.floats("w", N, nullable=False)
+            inp.vars["codes"] = ("const", list(codes), "int64")
+            inp.vars["mask1"] = ("const", [int(b) for b in m1], "int64")
+            rt = fresh_runtime()
+            rt.size_hints = [nn]
+            extra = {"codes": list(codes), "mask1": [bool(b) for b in m1], "mask2": m2bits}
+            try:
+                gb = _concrete_state(E, case, codes)
+                gb.apply(A(v1, "float64").tag("input:values"), user, A(list(m1), "bool").tag("input:mask"))
+                used = second_op(gb, A(v2, "float64").tag("input:values"), A(m2bits, "bool"))
+                fresh = second_op(_concrete_state(E, case, codes), A(v2, "float64"), A(m2bits, "bool"))
+            except (Unsupported, OutsideModel):
+                raise
+            except Exception as e:      # noqa: BLE001
+                res["verdict"] = "sat"
+                res["subcases"] += 1
+                if len(res["candidates"]) < 3:
+                    res["candidates"].append({"signature": f"{PROP}:raises:{type(e).__name__}:apply_seq:{case['second']}:{case['rep']}", "case": dict(case, **extra),
+                                              "inputs": {"v": [1.0 * (i + 1) for i in range(N)], "w": [10.0 * (i + 1) for i in range(N)]}, "kind": "raises",
+                                              "labels": [f"{type(e).__name__}: {str(e)[:160]}"]})
+                continue
+            bl = _compare(case["second"] + " after apply(mask)", [_objcells(x) for x in used], [_objcells(x) for x in fresh])
+            dec = decide(inp, [(lab, b) for lab, b in bl], rt)
+            EM_merge(res, dec, case, extra)
+    res["symex_s"] = time.time() - t0 - res["solver_s"]
+    res["encoded"] = sorted(E.encoded) + ["groupby_lib/groupby/core.py::apply"]
+    res["witnesses"] = {f"{res['subcases']} (code sequence, first mask) pairs decided": True}
+    return res
+
+
+def _objcells(x):
+    if isinstance(x, A):
+        return [SF.of(c) if isinstance(c, (SF, float)) else c for c in x.cells]
+    if isinstance(x, real_np.ndarray):
+        return [SF.of(c) if isinstance(c, (SF, float)) else c for c in x.ravel().tolist()]
+    return _cells(x)
+
+
+def EM_merge(res, dec, case, extra):
+    res["subcases"] += 1
+    res["solver_s"] += dec.solver_s
+    res["n_queries"] += dec.n_queries
+    res["obligations"] += dec.obligations
+    if dec.verdict == "unknown" and res["verdict"] != "sat":
+        res["verdict"] = "unknown"
+    if dec.verdict == "sat" or dec.failed_obligations:
+        res["verdict"] = "sat"
+        model = dec.model if dec.verdict == "sat" else dec.ob_model
+        if len(res["candidates"]) < 4:
+            res["candidates"].append({"signature": f"{PROP}:apply_seq:{case['second']}:{case['rep']}", "case": dict(case, **extra), "inputs": jsonable(model),
+                                      "kind": "property", "labels": dec.which[:4] + [f"{a}@{b}" for a, b in dec.failed_obligations[:3]]})
+
+
 # ------------------------------------------------------------------ replay on the real class
 def _real_state(case, conc, rep=None):
     rep = rep or case.get("rep", "chunked+pointers")
@@ -361,6 +468,44 @@ def _real_state(case, conc, rep=None):
         ch.append(glob[p0:p0 + L])
         p0 += L
     return C3.real_gb(G, chunks=ch, pointers=None), glob
+
+
+def _replay_apply_seq(case, v1, v2):
+    N, G, codes = case["N"], case["G"], case["codes"]
+    half = N // 2
+
+    def state():
+        if case["rep"] == "contiguous":
+            return C3.real_gb(G, codes=codes)
+        if case["rep"] == "chunked-unified":
+            return C3.real_gb(G, chunks=[codes[:half], codes[half:]], pointers=None)
+        p0 = list(range(G - 1, -1, -1))
+        inv0 = {g: j for j, g in enumerate(p0)}
+        return C3.real_gb(G, chunks=[[(-1 if c < 0 else inv0[c]) for c in codes[:half]], codes[half:]], pointers=[p0, list(range(G))])
+
+    def user(a):
+        return float(real_np.sum(a * real_np.arange(1, len(a) + 1)))
+
+    def second(gb):
+        k = case["second"]
+        if k == "apply":
+            return [gb.apply(v2, user, None)]
+        if k == "apply(mask)":
+            return [gb.apply(v2, user, real_np.array(case["mask2"], dtype=bool))]
+        if k == "ikey_count":
+            return [gb.ikey_count]
+        return op_sum(gb, v2, None)
+    gb = state()
+    gb.apply(v1, user, real_np.array(case["mask1"], dtype=bool))
+    a = _real_cells(second(gb))
+    b = _real_cells(second(state()))
+    bad = []
+    for k, (x, y) in enumerate(zip(a, b)):
+        if len(x) != len(y):
+            bad.append((k, "length"))
+            continue
+        bad += [(k, i) for i in range(len(x)) if not approx_same(x[i], y[i])]
+    return bool(bad), {"used_object": jsonable(a), "fresh_object": jsonable(b), "differ": jsonable(bad[:6]), "codes": codes, "mask1": case["mask1"]}
 
 
 def _real_cells(outs):
@@ -389,6 +534,8 @@ def replay(case, conc, cand=None):
             return bool(bad), {"chunked": jsonable(list(o1)), "contiguous": jsonable(list(o2)), "wrong_rows": bad, "global_codes": glob}
         v1 = np_values(to_float_cells(conc["v"]), "float64")
         v2 = np_values(to_float_cells(conc["w"]), "float64")
+        if case["kind"] == "apply_seq":
+            return _replay_apply_seq(case, v1, v2)
         m1 = real_np.array(conc["m"], dtype=bool)
         m2 = real_np.array(conc["n"], dtype=bool)
         if case["kind"] == "unify_alpha":
